@@ -24,8 +24,8 @@ FORMS = {
     "sub_r": "pppp",
     "mul_r": "pppp",
     "div_r": "pppp",
-    "mul_int_r": "ppp",
-    "div_int_r": "ppp",
+    "mul_int_r": "ppppppp",
+    "div_int_r": "pppp",
 }
 FORM_NAME = {"c": "checked", "s": "saturating", "w": "wrapping", "o": "overflowing", "p": "plain"}
 C01_OPS = ("mul", "div", "mul_r", "div_r")
